@@ -93,6 +93,7 @@ AChild(final, wroteOut, wroteErr, recv, recvOk, eof, eofWait, tCloseOut, tCloseE
          tClose == [o \in Outs |-> IF o = "out" THEN tCloseOut ELSE tCloseErr]
      IN viol' = viol
           \cup V(recvOk /\ recv <= inlen, "C02_in_exact")
+          \cup V(limit >= 0 => recvOk /\ recv <= inlen, "C03_input_delivered_exactly_once_across_limited_reads")
           \cup V(final => \A o \in Outs \cap piped : delivered[o] <= wrote[o], "C02_out_exact")
           \cup V(final /\ completeAt # <<>> => ("out" \in piped => completeAt[1] = wroteOut) /\ ("err" \in piped => completeAt[2] = wroteErr),
                  "C02_out_complete")
